@@ -9,6 +9,20 @@ structure HostD where
                  unknownMetric := true, reorderFailure := true, recordedStateStale := true,
                  reorderTimeout := none, cooldown := 0, resequence := true }
   app : App := {}
+  /-- `Application::run`: running until a `cancel` request, then returned (`Host.runStep`) -/
+  phase : Phase := .running
+
+/-- the id a store call shows for a payload WITHOUT METRICS (`m=0` on the request): none. The model's
+`id` is a ghost tag the harness puts into a metric; a metric-less message cannot carry it and the
+recording store prints `-1`. -/
+def bareId : Nat := 2 ^ 64
+
+def showId (id : Nat) : String := if id = bareId then "-1" else toString id
+
+/-- in the harness's alignment (`poll_until_offline_with_timeout` = 1 s, armed inside the request's own
+millisecond) `Application::run` has returned 999 ms after the millisecond of the cancel request when
+the final Offline is withheld -/
+def stopWaitMs : Nat := 999
 
 def kvGet (ws : List String) (key : String) : Option String :=
   ws.findSome? fun w =>
@@ -33,11 +47,11 @@ def parseNode (s : String) : Option Nat :=
 
 def showEff : Eff → Option String
   | .nodeBirth id ok => some s!"nodeBirth({id},{if ok then 1 else 0})"
-  | .nodeData id => some s!"nodeData({id})"
+  | .nodeData id => some s!"nodeData({showId id})"
   | .nodeStale => some "nodeStale"
   | .devCreated d => some s!"devCreated({d})"
-  | .devBirth d id ok => some s!"devBirth({d},{id},{if ok then 1 else 0})"
-  | .devData d id => some s!"devData({d},{id})"
+  | .devBirth d id ok => some s!"devBirth({d},{showId id},{if ok then 1 else 0})"
+  | .devData d id => some s!"devData({d},{showId id})"
   | .devStale d => some s!"devStale({d})"
   | .ncmd => some "ncmd"
   | .timerStart => none       -- not observable from outside
@@ -100,18 +114,43 @@ def parseCfg (ws : List String) : Option Cfg := do
          recordedStateStale := ← b "rs", reorderTimeout := toV, cooldown := ← kvNat ws "cd",
          resequence := ← b "rq" }
 
+/-- `m=0`: the payload carries no metrics. For the host it is a message like any other (it has its
+sequence number and timestamp, the store is called with an empty list); a store rejection needs a
+metric to ride on, so `ans` must be `ok`; a DDEATH never carries metrics and takes no `m=`. -/
 def parseRMsg (kind : String) (ws : List String) : Option RMsg := do
-  let id := (kvNat ws "id").getD 0
+  let bare ← match kvGet ws "m" with
+    | none => some false
+    | some "0" => some true
+    | some _ => none
+  let id := if bare then bareId else (kvNat ws "id").getD 0
+  let ans ← parseAns (kvGet ws "ans")
+  if bare && (ans != Ans.ok || kind == "ddeath") then none
+  else
   match kind with
-  | "ndata" => some (.ndata id (← parseAns (kvGet ws "ans")))
-  | "dbirth" => some (.dbirth (← kvNat ws "dev") id (← parseAns (kvGet ws "ans")))
+  | "ndata" => some (.ndata id ans)
+  | "dbirth" => some (.dbirth (← kvNat ws "dev") id ans)
   | "ddeath" => some (.ddeath (← kvNat ws "dev") id)
-  | "ddata" => some (.ddata (← kvNat ws "dev") id (← parseAns (kvGet ws "ans")))
+  | "ddata" => some (.ddata (← kvNat ws "dev") id ans)
   | _ => none
 
 def finishStep (st : HostD) (a : App) (e : List AppEff) (now : Nat) : HostD × String :=
   let (a', e') := fireDue st.cfg a now
   ({ st with app := a' }, renderApp (e ++ e'))
+
+/-- `host cancel off=<0|1>`: the stop request is taken in the request's own millisecond (timers due at
+its end still fire: the actors are alive), then the host waits for the final Offline - `off=1`: it is
+delivered in the next millisecond, `off=0`: never, the bounded wait runs out; a host that is offline
+does not wait at all - and `run()` returns. Answer: effects, then ` w=<ms waited>`. -/
+def cancelHost (st : HostD) (off : Bool) (now : Nat) : HostD × String :=
+  let r0 : RunApp := { app := st.app, phase := st.phase }
+  let (r1, e1) := runStep st.cfg r0 .stop now now
+  let (a1, f1) := fireDue st.cfg r1.app now
+  let w := if !a1.online then 0 else if off then 1 else stopWaitMs
+  let r2 : RunApp := { r1 with app := a1 }
+  let (r3, e3) := if a1.online && off then runStep st.cfg r2 (.ev .offline) (now + 1) (now + 1) else (r2, [])
+  let (a4, e4) := advTicks st.cfg w (now + 1) r3.app []
+  let (r5, e5) := runStep st.cfg { r3 with app := a4 } .cancelled (now + w) (now + w)
+  ({ st with app := r5.app, phase := r5.phase }, renderApp (e1 ++ f1 ++ e3 ++ e4 ++ e5) ++ s!" w={w}")
 
 def stepHost (st : HostD) (ws : List String) : HostD × String :=
   match kvNat ws "now" with
@@ -120,8 +159,23 @@ def stepHost (st : HostD) (ws : List String) : HostD × String :=
     match ws with
     | "new" :: rest =>
       match parseCfg rest with
-      | some c => ({ cfg := c, app := { online := true, nodes := [] } }, "ok")
+      | some c => ({ cfg := c, app := { online := true, nodes := [] }, phase := .running }, "ok")
       | none => (st, "bad-op")
+    | ["cancel", offW, _] =>
+      match kvNat [offW] "off" with
+      | some off =>
+        if off > 1 then (st, "bad-op")
+        else if st.phase != Phase.running then (st, "-")     -- a second cancel meets a loop that is gone
+        else cancelHost st (off == 1) now
+      | none => (st, "bad-op")
+    | _ =>
+    -- `Application::run` has returned: whatever is requested now meets a host that is gone (`runStep`, phase `returned`)
+    if st.phase != Phase.running then
+      match ws with
+      | "ev" :: _ | ["inv", _, _] | ["offline", _] | ["online", _] | ["adv", _, _] => (st, "-")
+      | _ => (st, "bad-op")
+    else
+    match ws with
     | "ev" :: node :: kind :: rest =>
       match parseNode node with
       | none => (st, "bad-op")
